@@ -42,6 +42,10 @@ type RaceObs struct {
 	Errs  []int
 	Final []TupleObs
 	Log   []ChangeObs // entries appended during the race
+	// Reordered: the changelog read before the race is not a prefix of the one read after it -
+	// an entry written by a racing request sorts (by ULID) before an entry that had already been
+	// written, and returned, before the race started.  Only the sqlite backend can show this.
+	Reordered bool
 }
 
 // conditions used in races: none, or c1 with an explicit non-empty context (the nil / empty
@@ -169,7 +173,34 @@ func RunRace(b *Backend, ballast int, init []Item, reqs []Op) (RaceObs, error) {
 	if len(l1) < len(l0) {
 		return o, fmt.Errorf("changelog shrank during the race")
 	}
-	o.Log = notBallastC(l1[len(l0):])
+	if eqChanges(l1[:len(l0)], l0) {
+		o.Log = notBallastC(l1[len(l0):])
+		return o, nil
+	}
+	// The old entries are not a prefix of the new read.  sqlite orders the changelog by ULID and
+	// takes the ULID's millisecond before BEGIN, and the process-wide monotonic entropy restarts
+	// whenever the millisecond changes - even backwards - so an entry of a racing request can
+	// sort before older entries.  The entries written during the race are then the multiset
+	// difference (in the order read), not the tail.
+	if b.Name != "sqlite" {
+		return o, fmt.Errorf("changelog entries written before the race changed or moved")
+	}
+	o.Reordered = true
+	rest := append([]ChangeObs(nil), l1...)
+	for _, old := range l0 {
+		found := false
+		for i, c := range rest {
+			if c == old {
+				rest = append(rest[:i], rest[i+1:]...)
+				found = true
+				break
+			}
+		}
+		if !found {
+			return o, fmt.Errorf("a changelog entry written before the race disappeared")
+		}
+	}
+	o.Log = notBallastC(rest)
 	return o, nil
 }
 
